@@ -101,6 +101,9 @@ def gen_batch(draw):
     spec = {"v": list(v), "who": "alice", "items": items,
             "cont": draw(st.sampled_from([None, None, "STOP", "CONTINUE", "CONTINUE", "CONTINUE", "UNDO"])),
             "order": draw(st.sampled_from([None, None, True, False]))}
+    # one case in three also travels over a real connection, behind an earlier request that
+    # asked for a small Maximum Response Size of its own
+    spec["behind"] = draw(st.sampled_from([None, None, None, None, 256, 1024]))
     return spec
 
 
@@ -265,8 +268,53 @@ def run_case(spec):
     return list(seen.items()), nontrivial, classes
 
 
+def run_behind(spec):
+    """The batch as the second request of a connection whose first request (a Query) carried a
+    Maximum Response Size: what the client receives for the batch is what the engine answers
+    when it gets the batch alone - every executed item reported, nothing replaced."""
+    items = spec["items"]
+    req = {"v": spec["v"], "items": items}
+    for k in ("cont", "order"):
+        if spec.get(k) is not None:
+            req[k] = spec[k]
+    first = {"v": spec["v"], "items": [{"op": "Query"}], "max": spec["behind"]}
+    try:
+        data = H.encode_request(first) + H.encode_request(req)
+    except Exception:
+        return [], ["behind:unencodable"]
+    a, b = store.fresh_server()[0], store.fresh_server()[0]
+    buckets = []
+    try:
+        H.CLOCK.now = NOW
+        conn, errors = a.session(data, cn=spec.get("who", "alice"), max_loops=6)
+        if errors or len(conn.sent) != 2:
+            return [], ["behind:session-irregular"]       # C12's business
+        r = _send(b, spec, items)
+        if r["items"] is None:
+            return [], ["behind:request-level-error"]
+        try:
+            got = H.response_plain(conn.sent[1], tuple(spec["v"]))
+        except Exception:
+            return [], ["behind:answer-unreadable"]
+        exp = [_norm_item(x, set(_random_uids(items, r["items"]))) for x in r["items"]]
+        got_n = [_norm_item(x, set(_random_uids(items, got)) if len(got) == len(items) else set()) for x in got]
+        if exp != got_n:
+            sa, sb = hist.snapshot(a, _random_uids(items, r["items"])), hist.snapshot(b, _random_uids(items, r["items"]))
+            what = "and-the-store-is-as-if-executed" if sa == sb else "store-differs-too"
+            buckets.append(("C08|behind-earlier-request|answer-differs-from-the-engine's|" + what,
+                            "first request: Query with Maximum Response Size %s\nclient received: %r\nengine answers: %r"
+                            % (spec["behind"], got_n[:3], exp[:3])))
+        return buckets, ["behind:%s" % spec["behind"]]
+    finally:
+        a.close()
+        b.close()
+
+
 def replay(spec):
-    return run_case(spec)[0]
+    b = run_case(spec)[0]
+    if spec.get("behind"):
+        b = b + run_behind(spec)[0]
+    return b
 
 
 def worker(n, seed):
@@ -274,6 +322,9 @@ def worker(n, seed):
 
     def one(spec):
         b, nt, cl = run_case(spec)
+        if spec.get("behind") and "unencodable" not in cl and "decoder-refused" not in cl:
+            b2, cl2 = run_behind(spec)
+            b, cl = b + b2, cl + cl2
         cl = cl + ["opt:%s" % spec.get("cont"), "n:%d" % len(spec["items"])]
         col.record(spec, nontrivial=nt, classes=cl, buckets=b)
 
